@@ -28,8 +28,10 @@ import time
 import common as C
 import gen as G
 
-THEOREMS = ['buffers_roundtrip_partial', 'lengths_recomputed_sufficient', 'to_buffers_keys_preorder',
-            'numpy_roundtrip', 'to_numpy_is_to_list', 'arrow_offsets_rebase_spec', 'bytemask_to_bitmap_spec']
+THEOREMS = ['to_buffers_keys_preorder', 'lengths_recomputed_sufficient', 'from_buffers_type', 'buffers_roundtrip_partial',
+            'buffers_roundtrip_refuted', 'numpy_roundtrip', 'from_numpy_value', 'to_numpy_is_to_list_partial',
+            'to_numpy_size0_refuted', 'arrow_offsets_rebase_spec', 'arrow_offsets_compact_spec', 'bytemask_to_bitmap_spec',
+            'bitmap_padding_zero']
 DRIVERS = ('pydrv',)
 COQ_DIR = os.path.join(C.VERIF, 'c16', 'coq')
 COQ_LOGICAL = '-R %s/coq AwkV -R . AwkBuffers' % C.VERIF
@@ -690,6 +692,18 @@ class Verdicts(object):
                                   size=len(lines[0]) if lines else 0, cid=c.id, obl=obl))
 
 
+def copt(c, name, default=None):
+    """an option of the case, as text"""
+    for x in c.meta.get('opts') or []:
+        if isinstance(x, (list, tuple)) and x and x[0] == name:
+            return str(x[1]) if len(x) > 1 else '1'
+    return default
+
+
+def is_partitioned(c):
+    return any(copt(c, k) is not None for k in ('parts', 'partitioned', 'repart'))
+
+
 def tree_feature(t, pred):
     if not is_node(t):
         return False
@@ -815,9 +829,9 @@ def auto_sig(c, obl, what, lines):
             return 'arrow-empty-option-content-cast'
         if 'min() iterable argument is empty' in text:
             return 'arrow-record-without-fields'
-        if 'pyarrow.lib.Tensor' in text or (c.meta['tags'].get('tensor') and tree_feature(tree, lambda t: t[0] == 'np' and len(t[2]) > 1)):
+        if 'pyarrow.lib.Tensor' in text or (copt(c, 'tensor', '1') == '1' and tree_feature(tree, lambda t: t[0] == 'np' and len(t[2]) > 1)):
             return 'arrow-tensor-not-an-array'
-        if c.meta['tags'].get('partitioned') and 'has another value' in what and tree_feature(tree, lambda t: t[0] == 'un'):
+        if is_partitioned(c) and 'has another value' in what and tree_feature(tree, lambda t: t[0] == 'un'):
             return 'arrow-chunked-union-merges-bool'
         if 'need at least one array to concatenate' in text:
             return 'arrow-all-chunks-empty'
@@ -968,7 +982,7 @@ def check_buffers(V, c, res, skips):
         V.bump('skip-invalid-input')
         return 'skip'
     tbs = item_status(fld(items, 'tobuf'))
-    if tbs is not None and tbs[0] == 'err' and tbs[1] == 'value' and 'the Form of partition' in tbs[4] and c.meta['tags'].get('partitioned'):
+    if tbs is not None and tbs[0] == 'err' and tbs[1] == 'value' and 'the Form of partition' in tbs[4] and is_partitioned(c):
         V.bump('expected-refusal:partition-forms-differ')      # documented: all partitions must have one Form
         return 'skip'
     tb = check_stage(V, c, skips, 'tobuf', fld(items, 'tobuf'), obl)
@@ -1062,7 +1076,7 @@ def check_numpy(V, c, res, skips):
     ts = unhx(get(inf, 'type'))
     rect = is_rect(iv)
     has_none = 'none' in ivt.replace('(', ' ').replace(')', ' ').split()
-    must_ok = rect is not False and type_is_rect_numeric(ts) and not c.meta['tags'].get('partitioned')
+    must_ok = rect is not False and type_is_rect_numeric(ts) and not is_partitioned(c)
     back_domain = type_is_rect_numeric(ts)          # "rectilinear and masked data": records / strings are outside
     good = True
     any_ok = False
